@@ -102,14 +102,58 @@ def _token_urlsafe(n: int = 32) -> str:
 _INSTALLED = False
 
 
+class _DatetimeModuleProxy:
+    """Stands in for `import datetime` inside library modules: .datetime is the virtual clock class."""
+
+    def __init__(self, real):
+        self._real = real
+        self.datetime = VDateTime
+
+    def __getattr__(self, name):
+        return getattr(self._real, name)
+
+
+def _own_clocks_and_randomness() -> None:
+    """Replace, in every already imported msmart module, whatever name is bound to a clock or a randomness source.
+
+    Done by identity of the bound object, not by attribute name, so that it keeps working when the library imports the
+    same things under other names (`import datetime as dt`, `from time import time`, `from os import urandom`, ...).
+    """
+    import datetime as _dtmod
+    import os as _os
+    import secrets as _secrets
+    import Crypto.Random as _crandom
+    real_dt = _dtmod.datetime
+    repl = {
+        id(real_dt): VDateTime,
+        id(_REAL_TIME): _vtime, id(_REAL_MONO): _vmono,
+        id(_crandom.get_random_bytes): _get_random_bytes, id(_os.urandom): _get_random_bytes,
+        id(_secrets.token_bytes): _get_random_bytes, id(_secrets.token_hex): _token_hex, id(_secrets.token_urlsafe): _token_urlsafe,
+    }
+    for name, mod in list(sys.modules.items()):
+        if not (name == "msmart" or name.startswith("msmart.")) or mod is None:
+            continue
+        for attr, val in list(vars(mod).items()):
+            if val is _dtmod:
+                setattr(mod, attr, _DatetimeModuleProxy(_dtmod))
+            elif val is _time:
+                pass        # time.time / time.monotonic are patched on the module itself below
+            elif id(val) in repl and not isinstance(val, type(VDateTime)) or val is real_dt:
+                setattr(mod, attr, repl[id(val)])
+
+
 def install() -> None:
     """Take ownership of every source of nondeterminism (DESIGN 1.2)."""
     global _INSTALLED
     if _INSTALLED:
         return
     _INSTALLED = True
-    _lan.datetime = VDateTime
-    _cloud.datetime = VDateTime
+    import msmart.base_device  # noqa: F401
+    import msmart.cli  # noqa: F401
+    import msmart.discover  # noqa: F401
+    _own_clocks_and_randomness()
+    _lan.datetime = VDateTime if not isinstance(getattr(_lan, "datetime", None), _DatetimeModuleProxy) else _lan.datetime
+    _cloud.datetime = VDateTime if not isinstance(getattr(_cloud, "datetime", None), _DatetimeModuleProxy) else _cloud.datetime
     _lan.get_random_bytes = _get_random_bytes
     _cloud.token_hex = _token_hex
     _cloud.token_urlsafe = _token_urlsafe
